@@ -248,6 +248,89 @@ func runC11(em *vEmitter, r *vRng) {
 		vStats["ops"] += len(ops)
 		ms.cleanup()
 	}
+	// directed histories on ONE shared handle (every connection of a listener uses the listener's handle):
+	// many clients log in at once, each as its own user, alternating the right and a wrong password; nothing
+	// is written, so every answer is determined - and must reach the client that asked
+	for hi := 0; hi < 5; hi++ {
+		ms := mNewStore("c11s", r, 1)
+		ms.params[1].Cost = 8 // a hash that takes long enough for the clients to pile up behind the dispatcher
+		ms.writeCfg()
+		var init []string
+		nu := 24
+		for i := 0; i < nu; i++ {
+			u := fmt.Sprintf("user%d", i)
+			ms.plant(u, i%3 == 0, 2, 1600000000, r.bytes(32), []byte("pw-"+u), "")
+			init = append(init, fmt.Sprintf("(%s, (%s, %s))", cS(u), cS("pw-"+u), cB(i%3 == 0)))
+		}
+		st, err := NewStore(ms.cfgfile, "", "", "", "")
+		if err != nil {
+			panic(err)
+		}
+		shared := st.GetInterface()
+		var mu sync.Mutex
+		var ops []c11Op
+		t0 := time.Now()
+		var wg sync.WaitGroup
+		for c := 0; c < nu; c++ {
+			wg.Add(1)
+			go func(c int) {
+				defer wg.Done()
+				u := fmt.Sprintf("user%d", c)
+				for k := 0; k < 40; k++ {
+					pw := "pw-" + u
+					if (k+c)%2 == 1 {
+						pw = "wrong"
+					}
+					o := c11Op{client: c, kind: "auth", user: u, pw: pw, call: int64(time.Since(t0))}
+					ok, adm, _, _ := shared.Authenticate(u, pw)
+					o.ok, o.resAdmin = ok, ok && adm
+					o.ret = int64(time.Since(t0))
+					mu.Lock()
+					ops = append(ops, o)
+					mu.Unlock()
+				}
+			}(c)
+		}
+		fin := make(chan struct{})
+		go func() { wg.Wait(); close(fin) }()
+		select {
+		case <-fin:
+		case <-time.After(20 * time.Second):
+			em.emit(vCase{Prop: "C11", Kind: "history", Class: "history/stalled", Nontrivial: true,
+				Violation: "logins on a shared handle never returned", Human: map[string]interface{}{}})
+			return
+		}
+		// 2400 logins are too many for the search: hand over the first answer that is not the determined
+		// one together with everything that overlaps it in time (or, if all are right, the first 30)
+		bad := -1
+		for i, o := range ops {
+			if o.ok != (o.pw != "wrong") {
+				bad = i
+				break
+			}
+		}
+		sel := ops
+		if bad >= 0 {
+			sel = nil
+			for _, o := range ops {
+				if o.call <= ops[bad].ret && o.ret >= ops[bad].call && len(sel) < 24 {
+					sel = append(sel, o)
+				}
+			}
+		} else if len(sel) > 30 {
+			sel = sel[:30]
+		}
+		vStats["shared-handle-logins"] += len(ops)
+		ops = sel
+		var xs []string
+		for _, o := range ops {
+			xs = append(xs, o.coq())
+		}
+		em.emit(vCase{Prop: "C11", Kind: "history", Class: "history/shared-handle-logins", Nontrivial: true,
+			Coq:   fmt.Sprintf("LinHist %s %s", cList(init), cList(xs)),
+			Human: map[string]interface{}{"ops": len(ops), "mode": "off"}})
+		ms.cleanup()
+	}
 	// directed histories across handles: a login through one handle, an acknowledged change of the same
 	// user through another, then the old and new credentials through the first again (strictly sequential)
 	for xi := 0; xi < 10; xi++ {
